@@ -722,7 +722,7 @@ Fixpoint amap_slots {V} (m : amap V) : Z :=
   | (k, _) :: m' => Z.max (k + 1) (amap_slots m')
   end.
 
-(* hashes of the hand-modelled decoders this file was written against
+(* hashes of the hand-modelled functions this file was written against
    (compared with Gen.TeehistTable.src_pins in Props/C17.v) *)
 Definition hand_pins : list (list Z) := [
   [87; 249; 198; 75; 226; 27; 225; 30];
@@ -733,5 +733,16 @@ Definition hand_pins : list (list Z) := [
   [165; 0; 126; 236; 66; 175; 108; 230];
   [43; 53; 9; 194; 230; 135; 234; 230];
   [117; 112; 189; 135; 173; 132; 237; 180];
-  [201; 159; 58; 160; 33; 241; 200; 248]
+  [201; 159; 58; 160; 33; 241; 200; 248];
+  (* raw.rs: read_header, new_impl, from_header, Reader::read (with the TICK_SKIP fix), cids,
+     read_more, read_kind, read_item; mod.rs: read_magic *)
+  [116; 17; 123; 61; 111; 7; 93; 170];
+  [185; 146; 191; 125; 162; 131; 199; 60];
+  [140; 221; 183; 236; 233; 185; 181; 199];
+  [170; 81; 9; 106; 188; 8; 161; 91];
+  [195; 74; 108; 201; 16; 125; 199; 45];
+  [191; 76; 246; 220; 20; 154; 216; 102];
+  [32; 81; 242; 61; 146; 24; 44; 229];
+  [35; 244; 217; 157; 49; 133; 91; 149];
+  [14; 13; 223; 111; 45; 71; 111; 37]
 ].
